@@ -134,6 +134,9 @@ type c27Model struct {
 	fn   *ssa.Function
 	loop *c27Loop
 
+	calls     *c27Calls // in-package static callee closure of resolve (extracted helpers)
+	parseLost string    // non-empty: the Param.Parse anchor could not be resolved (raised by the families that need it)
+
 	srcT, paramT                               types.Type
 	fLocal, fNonZero, fDie, fZero, fDefault    *types.Var
 	fErr                                       *types.Var
@@ -182,25 +185,39 @@ func c27Build(c *Ctx, p *Prog) *c27Model {
 		c.Lost("expected exactly one reflect.Value.Set in Config.resolve, found %d", len(sets))
 	}
 	m.set, _ = sets[0].Instr.(*ssa.Call)
-	var parses []*ssa.Call
-	allInstrs(m.fn, false, func(_ *ssa.Function, in ssa.Instruction) {
-		if call, ok := in.(*ssa.Call); ok {
-			cc := call.Common()
-			if cc.IsInvoke() && cc.Method.Name() == "Parse" && types.Identical(cc.Value.Type(), m.paramT) {
-				parses = append(parses, call)
-			}
-		}
-	})
-	if len(parses) != 1 || m.set == nil {
-		c.Lost("expected exactly one Param.Parse invoke in Config.resolve, found %d", len(parses))
+	if m.set == nil {
+		c.Lost("the reflect.Value.Set in Config.resolve is not a plain call")
 	}
-	m.parse = parses[0]
 	m.loop = c27InnermostLoop(m.set)
 	if m.loop == nil {
 		c.Lost("the reflect Set in Config.resolve is not inside a loop with a unique body entry")
 	}
-	if !m.loop.InRegion(m.parse.Block()) {
-		c.Lost("Param.Parse and reflect Set are not in the same per-value loop of Config.resolve")
+	// the Param.Parse invoke: in resolve itself or in an in-package helper it calls
+	m.calls = c27CallClosure(m.fn)
+	var parses []*ssa.Call
+	for _, f := range m.calls.funcs {
+		allInstrs(f, false, func(_ *ssa.Function, in ssa.Instruction) {
+			if call, ok := in.(*ssa.Call); ok {
+				cc := call.Common()
+				if cc.IsInvoke() && cc.Method.Name() == "Parse" && types.Identical(cc.Value.Type(), m.paramT) {
+					parses = append(parses, call)
+				}
+			}
+		})
+	}
+	if len(parses) != 1 {
+		m.parseLost = fmt.Sprintf("expected exactly one Param.Parse invoke in Config.resolve and the in-package helpers it calls, found %d", len(parses))
+	} else {
+		m.parse = parses[0]
+		sites := m.rootSites(m.parse, 6)
+		if len(sites) == 0 {
+			m.parseLost = "Param.Parse is not reached from Config.resolve"
+		}
+		for _, s := range sites {
+			if !m.loop.InRegion(s.Block()) {
+				m.parseLost = "Param.Parse and reflect Set are not in the same per-value loop of Config.resolve"
+			}
+		}
 	}
 	m.iter, m.rangeKey = c27IterationOrder(m.loop)
 
@@ -221,14 +238,16 @@ func c27Build(c *Ctx, p *Prog) *c27Model {
 		mt, ok := mp.Type().Underlying().(*types.Map)
 		return ok && types.Identical(mt.Elem(), m.paramT)
 	})
-	raw := m.parse.Common().Args[0]
+	isRaw := func(v ssa.Value) bool {
+		return m.parse != nil && m.calls.same(v, m.parse.Common().Args[0])
+	}
 	isLowerRaw := func(v ssa.Value) bool {
 		call, ok := v.(*ssa.Call)
 		if !ok {
 			return false
 		}
 		f := calleeOf(call.Common())
-		return f != nil && f.Pkg() != nil && f.Pkg().Path() == "strings" && f.Name() == "ToLower" && call.Common().Args[0] == raw
+		return f != nil && f.Pkg() != nil && f.Pkg().Path() == "strings" && f.Name() == "ToLower" && isRaw(call.Common().Args[0])
 	}
 	isNone := func(v ssa.Value) bool {
 		cv, ok := constOf(v)
@@ -242,7 +261,7 @@ func c27Build(c *Ctx, p *Prog) *c27Model {
 				return false
 			}
 			a := cs.Args()
-			return (a[0] == raw && isNone(a[1])) || (a[1] == raw && isNone(a[0]))
+			return (isRaw(a[0]) && isNone(a[1])) || (isRaw(a[1]) && isNone(a[0]))
 		}))
 
 	m.collectEffects()
@@ -308,7 +327,52 @@ func (m *c27Model) mapName(mv ssa.Value) string {
 	return types.TypeString(mv.Type(), func(*types.Package) string { return "" })
 }
 
+// collectHelperEffects: the effects of the in-package helpers that resolve only
+// calls from inside the per-value loop (an extracted piece of the loop body):
+// writes to the Config, to globals and to maps, and the returns that report a
+// provably non-nil error (the helper's form of resolve's early return).
+func (m *c27Model) collectHelperEffects() {
+	recv := m.fn.Params[0]
+	for _, f := range m.calls.funcs[1:] {
+		inLoop := len(m.calls.sites[f]) > 0
+		for _, call := range m.calls.sites[f] {
+			rs := m.rootSites(call, 6)
+			if len(rs) == 0 {
+				inLoop = false
+			}
+			for _, s := range rs {
+				if !m.loop.InRegion(s.Block()) {
+					inLoop = false
+				}
+			}
+		}
+		if !inLoop {
+			continue
+		}
+		ei := c27ErrIdx(f)
+		for _, b := range f.Blocks {
+			for _, in := range b.Instrs {
+				switch x := in.(type) {
+				case *ssa.Store:
+					if fa, ok := x.Addr.(*ssa.FieldAddr); ok && m.calls.same(fa.X, recv) {
+						m.effects = append(m.effects, c27Effect{In: in, Name: "store:" + fieldName(fa.X.Type(), fa.Field), Val: x.Val})
+					} else if _, ok := x.Addr.(*ssa.Global); ok {
+						m.effects = append(m.effects, c27Effect{In: in, Name: "store:global:" + x.Addr.Name(), Val: x.Val})
+					}
+				case *ssa.MapUpdate:
+					m.effects = append(m.effects, c27Effect{In: in, Name: "mapupdate:" + m.mapName(x.Map) + "[?]", Val: x.Value})
+				case *ssa.Return:
+					if ei >= 0 && !isPanicBlock(b) && m.errNonNil(x, ei) {
+						m.effects = append(m.effects, c27Effect{In: in, Name: "return"})
+					}
+				}
+			}
+		}
+	}
+}
+
 func (m *c27Model) collectEffects() {
+	defer m.collectHelperEffects()
 	recv := m.fn.Params[0]
 	for _, b := range m.fn.Blocks {
 		if !m.loop.InRegion(b) {
@@ -376,15 +440,22 @@ func runC27(c *Ctx) {
 
 	c.Rule("C27.comparator", "E-FLOW (operand projections of the comparator's parameters)", "every comparator over calc.SelectorConfigEntry handed to a slices/sort function (it picks the per-selector configuration source from a slice built in map order): each comparison step compares the same projection of the two different parameters, and one step compares the unique key (the entry field ConfigBatcher stores its map key into)", 2)
 
-	m := c27Build(c, p)
-	c27Shadow(c, m)
-	c27Value(c, m)
-	c27Fatal(c, m)
-	c27Order(c, m)
-	c27Record(c, m)
-	c27Sources(c, m)
-	c27Meta(c, p)
-	c27Comparator(c)
+	// every family runs on its own: a lost anchor of one (or of the shared model)
+	// never zeroes the independent ones; the combined loss is raised at the end
+	var lost []string
+	var m *c27Model
+	c27Isolated(&lost, func() { m = c27Build(c, p) })
+	if m != nil {
+		for _, fam := range []func(*Ctx, *c27Model){c27Shadow, c27Value, c27Fatal, c27Order, c27Record, c27Sources} {
+			fam := fam
+			c27Isolated(&lost, func() { fam(c, m) })
+		}
+	}
+	c27Isolated(&lost, func() { c27Meta(c, p) })
+	c27Isolated(&lost, func() { c27Comparator(c) })
+	if len(lost) > 0 {
+		c.Lost("%s", strings.Join(lost, " | "))
+	}
 }
 
 func c27Shadow(c *Ctx, m *c27Model) {
@@ -394,13 +465,13 @@ func c27Shadow(c *Ctx, m *c27Model) {
 		if e.In.Pos() == token.NoPos {
 			site = p.Pos(m.fn.Pos())
 		}
-		c.Check(m.loop.instrGuarded(e.In, m.precPred), "C27.shadowfirst/resolve/"+e.Name, site,
+		c.Check(m.guarded(e.In, m.precPred), "C27.shadowfirst/resolve/"+e.Name, site,
 			"only reachable after the test source >= currentSource",
 			"effect `"+e.Name+"` of a raw value is reachable without first establishing source >= currentSource: a shadowed lower-priority value can affect the result")
-		if m.loop.instrGuarded(e.In, m.unknownPred) {
+		if m.guarded(e.In, m.unknownPred) {
 			continue // unknown-parameter branch: no metadata, no local-only notion
 		}
-		c.Check(m.loop.instrGuarded(e.In, m.localPred), "C27.local/resolve/"+e.Name, site,
+		c.Check(m.guarded(e.In, m.localPred), "C27.local/resolve/"+e.Name, site,
 			"only reachable when !metadata.Local or source.Local()",
 			"effect `"+e.Name+"` of a known parameter is reachable for a local-only parameter from a non-local (datastore) source")
 	}
@@ -432,10 +503,44 @@ func c27PhiLeaves(l *c27Loop, v ssa.Value, depth int) ([]c27Leaf, bool) {
 }
 
 func (m *c27Model) errIs(nilWant bool) EdgePred {
-	return eqCond(nilWant, func(v ssa.Value) bool {
-		ex, ok := v.(*ssa.Extract)
-		return ok && ex.Index == 1 && ex.Tuple == ssa.Value(m.parse)
-	}, isNilConst)
+	return eqCond(nilWant, func(v ssa.Value) bool { return m.parseResult(v, 1, 4) }, isNilConst)
+}
+
+// needParse raises the Param.Parse anchor loss for the families that need it.
+func (m *c27Model) needParse() {
+	if m.parseLost != "" {
+		m.c.Lost("%s", m.parseLost)
+	}
+}
+
+// parseResult: v is result #idx of the Parse invoke, directly or handed through
+// unchanged by every return of an in-package helper.
+func (m *c27Model) parseResult(v ssa.Value, idx, depth int) bool {
+	if ex, ok := v.(*ssa.Extract); ok && ex.Index == idx && ex.Tuple == ssa.Value(m.parse) {
+		return true
+	}
+	if depth == 0 {
+		return false
+	}
+	call, k := c27ResultIndex(v)
+	if call == nil {
+		return false
+	}
+	h := m.calls.helperOf(call)
+	if h == nil {
+		return false
+	}
+	n := 0
+	for _, ret := range returnsOf(h) {
+		if isPanicBlock(ret.Block()) {
+			continue
+		}
+		if k >= len(ret.Results) || !m.parseResult(ret.Results[k], idx, depth-1) {
+			return false
+		}
+		n++
+	}
+	return n > 0
 }
 
 // metaFieldOf: v is a load of field fv of the metadata of the Param being parsed.
@@ -449,13 +554,14 @@ func (m *c27Model) metaField(v ssa.Value) *types.Var {
 		return nil
 	}
 	call, ok := fa.X.(*ssa.Call)
-	if !ok || !call.Common().IsInvoke() || call.Common().Value != m.parse.Common().Value {
+	if !ok || !call.Common().IsInvoke() || !m.calls.same(call.Common().Value, m.parse.Common().Value) {
 		return nil
 	}
 	return fieldVar(fa)
 }
 
 func c27Value(c *Ctx, m *c27Model) {
+	m.needParse()
 	p := m.p
 	site := p.Pos(m.set.Pos())
 	var setVal ssa.Value
@@ -468,19 +574,16 @@ func c27Value(c *Ctx, m *c27Model) {
 		c.Undecided("C27.value/resolve/origin", site, "the argument of reflect Set is not reflect.ValueOf(x)")
 		return
 	}
-	leaves, ok := c27PhiLeaves(m.loop, setVal, 4)
-	if !ok {
+	leaves := m.valueLeaves(setVal, m.set, nil, 6)
+	if len(leaves) == 0 || (len(leaves) == 1 && leaves[0].v == setVal) {
 		c.Undecided("C27.value/resolve/origin", site, "the value passed to reflect Set (%s) is not a merge of alternatives inside the per-value loop", path(setVal))
 		return
 	}
-	classes := map[string][]c27Leaf{}
+	classes := map[string][]c27VLeaf{}
 	var others []string
 	for _, lf := range leaves {
 		switch {
-		case func() bool {
-			ex, ok := lf.v.(*ssa.Extract)
-			return ok && ex.Index == 0 && ex.Tuple == ssa.Value(m.parse)
-		}():
+		case m.parseResult(lf.v, 0, 4):
 			classes["parsed"] = append(classes["parsed"], lf)
 		case m.metaField(lf.v) == m.fZero:
 			classes["zero"] = append(classes["zero"], lf)
@@ -512,9 +615,8 @@ func c27Value(c *Ctx, m *c27Model) {
 		}
 		var bad []string
 		for _, lf := range ls {
-			lf := lf
 			for i, pr := range n.conds {
-				if !m.loop.edgeGuarded(func(from, to *ssa.BasicBlock) bool { return from == lf.from && to == lf.to }, pr) {
+				if !lf.guarded(pr) {
 					bad = append(bad, n.names[i])
 				}
 			}
@@ -526,6 +628,7 @@ func c27Value(c *Ctx, m *c27Model) {
 }
 
 func c27Fatal(c *Ctx, m *c27Model) {
+	m.needParse()
 	p := m.p
 	for _, e := range m.effects {
 		ret, ok := e.In.(*ssa.Return)
@@ -538,11 +641,10 @@ func c27Fatal(c *Ctx, m *c27Model) {
 			continue
 		}
 		r := ret.Results[len(ret.Results)-1]
-		stored := false
-		for _, e2 := range m.effects {
-			if st, ok := e2.In.(*ssa.Store); ok && fieldVar(st.Addr) == m.fErr && st.Val == r && instrDominates(st, ret) {
-				stored = true
-			}
+		stored := m.errStored(r, ret, 4)
+		if !stored && ret.Parent() != m.fn && !isNilConst(r) {
+			// an error return of an extracted helper: the caller may do the storing
+			stored = m.storedByCallers(ret.Parent(), len(ret.Results)-1)
 		}
 		c.Check(!isNilConst(r) && stored, "C27.fatal/resolve/return", site,
 			"returns the error value it stored in Config.Err",
@@ -559,29 +661,40 @@ func c27Fatal(c *Ctx, m *c27Model) {
 	} {
 		found, bad := 0, ""
 		var site string
-		for _, b := range m.fn.Blocks {
-			if !m.loop.InRegion(b) || len(b.Succs) != 2 {
-				continue
-			}
-			ifi, ok := b.Instrs[len(b.Instrs)-1].(*ssa.If)
-			if !ok {
-				continue
-			}
-			cond, pol := stripNot(ifi.Cond, true)
-			if fieldVar(cond) != t.fv {
-				continue
-			}
-			if !m.loop.instrGuarded(ifi, t.ctx) && !(b == m.loop.BodyEntry) {
-				continue // a test of the flag in some other context
-			}
-			found++
-			site = p.Pos(ifi.Cond.Pos())
-			succ := b.Succs[0]
-			if !pol {
-				succ = b.Succs[1]
-			}
-			if succ == m.loop.Header || blockReach(succ)[m.loop.Header] {
-				bad = "the branch taken for " + t.what + " can continue with the next value instead of failing"
+		for _, f := range m.calls.funcs {
+			l := m.calls.ctx(f, m.loop)
+			for _, b := range f.Blocks {
+				if !l.InRegion(b) || len(b.Succs) != 2 {
+					continue
+				}
+				ifi, ok := b.Instrs[len(b.Instrs)-1].(*ssa.If)
+				if !ok {
+					continue
+				}
+				cond, pol := stripNot(ifi.Cond, true)
+				if fieldVar(cond) != t.fv {
+					continue
+				}
+				if !m.guarded(ifi, t.ctx) && !(b == m.loop.BodyEntry) {
+					continue // a test of the flag in some other context
+				}
+				found++
+				site = p.Pos(ifi.Cond.Pos())
+				succ := b.Succs[0]
+				if !pol {
+					succ = b.Succs[1]
+				}
+				if f != m.fn {
+					// the test sits in an extracted helper: the failure must travel
+					// to resolve as a non-nil error that resolve never continues on
+					if why := m.leavesVia(f, succ); why != "" {
+						bad = "the branch taken for " + t.what + " can continue with the next value instead of failing: " + why
+					}
+					continue
+				}
+				if succ == m.loop.Header || blockReach(succ)[m.loop.Header] {
+					bad = "the branch taken for " + t.what + " can continue with the next value instead of failing"
+				}
 			}
 		}
 		if found == 0 {
